@@ -22,6 +22,8 @@ pub struct Outcome {
 /// One simulated execution: the real writer against the simulated sink.
 pub fn run_write(mapping: &[u8], plan: &SinkPlan) -> Outcome {
     let mut sink = SimSink::new(plan);
+    // generous: a correct writer needs at most one call per byte plus one per injected fault
+    sink.call_budget = 20 * (mapping.len() as u64 + 64) + 10_000;
     let r = guarded(|| {
         let m = cur::ProguardMapping::new(mapping);
         cur::ProguardCache::write(&m, &mut sink)
@@ -43,6 +45,12 @@ pub fn run_write(mapping: &[u8], plan: &SinkPlan) -> Outcome {
 /// The oracle: exactly the clauses of the statement.
 pub fn judge(canon: &[u8], o: &Outcome) -> Option<(String, String)> {
     if let Some(p) = &o.panic {
+        if p.contains(CALL_BUDGET_MARK) {
+            return Some((
+                "write-does-not-terminate".into(),
+                format!("write kept calling the sink ({} calls for a {}-byte file) without ever returning", o.calls, canon.len()),
+            ));
+        }
         return Some((format!("panic {}", panic_class(p)), format!("write panicked under the simulated sink: {}", p)));
     }
     match &o.result {
@@ -213,6 +221,15 @@ fn enumerate_mapping(run: u64, mapping: &[u8], st: &mut Stats, vs: &mut Vec<Viol
                 }
                 let plan = SinkPlan { cap, faults: vec![Fault { at: i, kind }], disk_capacity: None };
                 check_one(&cx, &plan, st, vs, &mut nontrivial);
+            }
+            if cap.is_none() {
+                // the unchunked sink has one call per section: every error kind at every call
+                for k in ErrK::ALL {
+                    for sticky in [true, false] {
+                        let plan = SinkPlan { cap, faults: vec![Fault { at: i, kind: FaultKind::Hard(k, sticky) }], disk_capacity: None };
+                        check_one(&cx, &plan, st, vs, &mut nontrivial);
+                    }
+                }
             }
         }
     }
@@ -429,7 +446,7 @@ pub fn main(env: &Env) -> i32 {
         let r = run_indexed(n_total, env.workers, 1, |i, st, vs| {
             if i < n_gen {
                 let mut rng = Rng::new(run_seed(seed, "C15.enum", i));
-                let (_cfg, m) = gen::gen_case(&mut rng, 6, 8);
+                let (_cfg, m) = gen::gen_case_small(&mut rng, 6, 8);
                 enumerate_mapping(i, &m, st, vs, i < 4);
             } else if i < n_gen + corpus.len() as u64 {
                 let (_, m) = &corpus[(i - n_gen) as usize];
@@ -461,7 +478,7 @@ pub fn main(env: &Env) -> i32 {
                 explore_mapping(i, &mut rng, &m, plans, st, vs);
             } else if i < n + 40 {
                 let mut rng = Rng::new(run_seed(seed, "C15.enum", i - n));
-                let (_cfg, m) = gen::gen_case(&mut rng, 6, 8);
+                let (_cfg, m) = gen::gen_case_small(&mut rng, 6, 8);
                 enumerate_mapping(i, &m, st, vs, false);
             } else {
                 let (_, m) = &corpus[(i - n - 40) as usize];
